@@ -186,6 +186,9 @@ class XmlSchema(InterfaceDocumentBase):
                 element.set('name', name)
                 element.set('type', method.in_message.get_type_name_ns(
                                                                 self.interface))
+                if method.in_message.Attributes.nullable:
+                    # the value of a bare message is sent as xsi:nil when None
+                    element.set('nillable', 'true')
                 elements[name] = element
                 schema_root.append(element)
 
@@ -198,6 +201,10 @@ class XmlSchema(InterfaceDocumentBase):
                     element.set('name', name)
                     element.set('type', method.out_message \
                                               .get_type_name_ns(self.interface))
+                    if method.out_message.Attributes.nullable:
+                        # the value of a bare message is sent as xsi:nil when
+                        # None
+                        element.set('nillable', 'true')
                     elements[name] = element
                     schema_root.append(element)
 
